@@ -369,9 +369,10 @@ def describe(tier):
     return {
         'rule': 'all ordered lists of 0..3 boxes (36-box lattice, repetitions allowed), lists of 4(/5) boxes over 9 mutually overlapping boxes, lists of 1..3 '
                 'polygons (6-polygon alphabet) x line skew {0,+3,-3} deg x {smart sorter x 3 intersection parameters, naive sorter x 3 denominators}. '
-    what the sorter is told about the page: {image + page_size, page_size only, neither (PageLayout() default (0, 0), image None), image only} on all 2-box lists, 2-polygon lists and the large layouts. state = (region list, skew, page information). Non-trivial: calls whose output order differs from the input order.',
+                'What the sorter is told about the page: {image + page_size, page_size only, neither (PageLayout() default (0, 0), image None), image only} on all 2-box lists, 2-polygon lists and the large layouts. '
+                'state = (region list, skew, page information). Non-trivial: calls whose output order differs from the input order.',
         'bounds': BOUNDS[tier], 'alphabets': {'boxes': len(BOXES), 'overlapping': OVERLAPPING, 'polygons': POLYS, 'skews': SKEWS,
-                                               'FakeIntersectionParameter': INTERSECT, 'ImageWidthDenominator': DENOMS},
+                                               'FakeIntersectionParameter': INTERSECT, 'ImageWidthDenominator': DENOMS, 'page_information': PAGE_INFO},
         'assumptions': ['geometry compared within 1e-6 (the smart sorter rotates by the de-skew angle and back)', 'region ids are unique'],
         'min_nontrivial': 100, 'required_tags': ['baselines-not-left-to-right', 'line-ids-not-unique-on-the-page', 'more-than-nine-regions', 'integer-coordinate-arrays', 'order-actually-changed', 'de-skew-rotation-applied', 'mutually-overlapping-lists']
                          + ['sorter-given-' + e for e in PAGE_INFO[1:]] + ['de-skew-with-' + e for e in PAGE_INFO[1:]],
